@@ -72,13 +72,14 @@ pub fn boundary_codes(depth: u8) -> Vec<u16> {
 
 /// Deterministic expansion of (stratum, seed) into `n` code triples at the given depth.
 /// strata: 0 uniform; 1 boundary set; 2 single-axis sweep (consecutive codes along one axis, other
-/// two fixed); 3 mixed (each component independently uniform or boundary); 4 near-neutral chroma
+/// two fixed); 3 mixed (each component independently uniform or boundary); 4 near-neutral chroma;
+/// 5 related neighbours (next triple = previous one with +-1 / +-2^k on one or two planes, or equal)
 pub fn expand_codes(depth: u8, stratum: u8, seed: u64, n: usize) -> Vec<[u16; 3]> {
     let mut e = Expand(seed);
     let max = ((1u32 << depth) - 1) as u64;
     let b = boundary_codes(depth);
     let mut out = Vec::with_capacity(n);
-    match stratum % 5 {
+    match stratum % 6 {
         0 => {
             for _ in 0..n {
                 out.push([e.below(max + 1) as u16, e.below(max + 1) as u16, e.below(max + 1) as u16]);
@@ -112,6 +113,25 @@ pub fn expand_codes(depth: u8, stratum: u8, seed: u64, n: usize) -> Vec<[u16; 3]
                 out.push(p);
             }
         }
+        5 => {
+            let mut p = [e.below(max + 1) as i64, e.below(max + 1) as i64, e.below(max + 1) as i64];
+            for _ in 0..n {
+                out.push([p[0] as u16, p[1] as u16, p[2] as u16]);
+                match e.below(8) {
+                    0 => {} // identical neighbour
+                    1 => p = [e.below(max + 1) as i64, e.below(max + 1) as i64, e.below(max + 1) as i64],
+                    _ => {
+                        let planes = 1 + e.below(2);
+                        for _ in 0..planes {
+                            let k = e.below(3) as usize;
+                            let d = 1i64 << e.below(depth as u64);
+                            let d = if e.below(2) == 0 { d } else { -d };
+                            p[k] = (p[k] + d).rem_euclid(max as i64 + 1);
+                        }
+                    }
+                }
+            }
+        }
         _ => {
             let half = 1i64 << (depth - 1);
             for _ in 0..n {
@@ -126,4 +146,19 @@ pub fn expand_codes(depth: u8, stratum: u8, seed: u64, n: usize) -> Vec<[u16; 3]
         }
     }
     out
+}
+
+/// (w, h, per-plane paddings) for a batch of n code triples: several rows and independent plane
+/// strides, so that row/stride mix-ups between planes show; the batch is truncated to w*h
+pub fn layout_for(seed: u64, n: usize) -> (usize, usize, [(usize, usize); 3]) {
+    let mut e = Expand(seed ^ 0x1A70);
+    let h = (1 + e.below(4) as usize).min(n.max(1));
+    let w = (n / h).max(1);
+    let mut pads = [(0usize, 0usize); 3];
+    if e.below(2) == 0 {
+        for p in pads.iter_mut() {
+            *p = (if e.below(2) == 0 { 0 } else { e.below(33) as usize }, e.below(3) as usize);
+        }
+    }
+    (w, h, pads)
 }
